@@ -30,7 +30,7 @@ def INFLF():
 
 
 def args_ok(run, args, kw):
-    env = run.cur_env
+    env = run.env_view()
     return (len(args) == 4 and not kw and args[0] is env['G'] and args[2] is env['status']
             and (args[3] is env['parameters'] or args[3] == env['parameters']))
 
@@ -41,7 +41,7 @@ def mk_rate(run, name, **kw):
         run2.oblige('site', 'callback-args:rate_function', lineno, BoolVal(bool(ok)))
         if not ok:
             return fresh('rate', R)
-        st = run2.cur_env['status'].val
+        st = run2.local('status').val
         r = RATEF()(st, args[1])
         run2.assume(r >= 0)
         return r
@@ -52,8 +52,8 @@ def mk_choice(run, name, **kw):
     def fn(run2, args, kw2, lineno):
         ok = args_ok(run2, args, kw2) and z3.is_expr(args[1])
         run2.oblige('site', 'callback-args:transition_choice', lineno,
-                    (args[1] == run2.cur_env['node']) if ok else BoolVal(False))
-        st = run2.cur_env['status'].val
+                    (args[1] == run2.local('node')) if ok else BoolVal(False))
+        st = run2.local('status').val
         run2.ghost['status_before'] = st
         run2.ghost['chosen'] = (args[1], CHOICEF()(st, args[1])) if ok else None
         return CHOICEF()(st, args[1]) if ok else fresh('choice', so.St())
@@ -63,7 +63,7 @@ def mk_choice(run, name, **kw):
 def mk_infl(run, name, **kw):
     def fn(run2, args, kw2, lineno):
         ok = args_ok(run2, args, kw2) and z3.is_expr(args[1])
-        env = run2.cur_env
+        env = run2.env_view()
         st = env['status'].val
         prev = run2.ghost.get('status_before')
         ch = run2.ghost.get('chosen')
